@@ -16,8 +16,8 @@ Four parts (see run()):
      discipline carries a REASON the scanner established by analysis (caller-side slices of every call
      site of a private helper / of the backend primitive ending in the IR edge `call`, defining slices of
      every store to a constructor-owned field, zero reads of a write-only attribute, class-level target);
-     the Lean theorem checks the emitted data — there is no prose allow-list any more, only the named
-     clause identity-to-mutates-receiver.
+     the Lean theorem checks the emitted data — there is no prose allow-list and no named clause any more
+     (C18_clause_rows: the list of rows resting on a clause is empty).
 
 Tiers of (a): quick = all histories of length <= 2, a STRATIFIED sample of length 3 (every ordered triple of
 the 7 operation kinds, every operation in every position), 60 random histories of length 4-8; thorough =
@@ -81,18 +81,11 @@ PY = "/venv/bin/python"
 # Genuine defects found by this check and not yet decided (fix in /repo or record in known_findings.json).
 # clause name -> what fails.  The clause names are the hypotheses of the Lean theorems
 # (C18.C18_leaves_partial) and the `clause` field of the fresh-interpreter reports.
-# (first-instance-representative was decided: it is recorded in /verif/known_findings.json)
-PROVISIONAL_KNOWN = {
-    "identity-to-mutates-receiver":
-        "cola/ops/operators.py Identity.to(device): `self.device = device; return self` stores the device into the RECEIVER (every "
-        "other kind returns a new operator through flatten/unflatten).  Witness: I = Identity((4, 4), np.float64); I.to('cpu') "
-        "changes I.device from None to 'cpu' and returns I itself.  Found in round 2 when the prose allow-list of in-place sites "
-        "was replaced by analysis: the scanner can establish no reason for this site (`device` is read all over the library) and the "
-        "old prose reason ('the NumPy backend has the single device None') is false.  Lean: the one row of the named-clause list "
-        "(Lemmas/PersistSites.lean allowList, theorem C18_clause_rows).  Patch proposal: "
-        "`def to(self, device): out = Identity(self.shape, self.dtype); out.device = device; return out` (or drop the override: "
-        "LinearOperator.to rebuilds through flatten/unflatten).",
-}
+# (first-instance-representative was decided: it is recorded in /verif/known_findings.json.
+#  identity-to-mutates-receiver — Identity.to(device) stored the device into the RECEIVER, found in round 2 when the prose
+#  allow-list of in-place sites was replaced by analysis — was REPAIRED in /repo by aef9931; the operation `to_dev` stays in the
+#  history stream as a regression: it must leave the receiver unchanged, a change is a VIOLATION.)
+PROVISIONAL_KNOWN = {}
 _FORMERLY_PROVISIONAL = {
     "first-instance-representative":
         "the registry `_dynamic` of a (parametrised) class is fixed by its FIRST instance: `A[i0:i1, :]` and "
@@ -483,7 +476,9 @@ def _(env, A, last):
 
 @op("to_dev")
 def _(env, A, last):
-    return A.to("cpu")                 # a device move; raises for every kind holding arrays on the NumPy backend (move_to)
+    # a device move; raises for every kind holding arrays on the NumPy backend (move_to).  Regression for the repaired
+    # identity-to-mutates-receiver (/repo aef9931): Identity.to must return a NEW operator and leave the receiver alone
+    return A.to("cpu")
 
 
 @op("to_dtype")
@@ -657,13 +652,6 @@ def _only_device(s0, s1):
             return ("o", t[1], tuple((k, v) for k, v in t[2] if k != "device"))
         return t
     return drop(s0[1]) == drop(s1[1])
-
-
-def is_identity_to_clause(small, ff):
-    """exactly the class of the clause identity-to-mutates-receiver: the LAST operation of the shrunk history is the device move,
-    the operator that changed is an Identity, and nothing but its `device` changed"""
-    return bool(ff) and bool(small) and small[-1] == "to_dev" and ff.get("class") == "Identity" and ff.get("only_device") is True \
-        and ff.get("what") in ("pool operator changed", "an operator changed after it was returned to the caller")
 
 
 def _struct_diff(a, b, path=""):
@@ -1113,12 +1101,6 @@ def part_a(ctx, cov):
         if key2 in seen:
             continue
         seen.add(key2)
-        clause = "identity-to-mutates-receiver"
-        if is_identity_to_clause(small, ff or first) and (clause in PROVISIONAL_KNOWN or clause in common.known_clauses(ctx.prop)):
-            cov["clause_hits_identity_to_mutates_receiver"] = cov.get("clause_hits_identity_to_mutates_receiver", 0) + 1
-            common.known_finding(ctx, clause, (common.known_clauses(ctx.prop).get(clause) or {}).get("what") or
-                                 (PROVISIONAL_KNOWN[clause][:300] + f" [history {small} on pool kind {f['kind']}]"))
-            continue
         common.violation(ctx, {"history": small, "kind": f["kind"], "failure": ff or first, "original_history": f["history"],
                                "replay": "./check C18 quick --replay <this file>"})
     return agg
@@ -1713,7 +1695,7 @@ def run(ctx):
         "known clause first-instance-representative (known_findings.json): leaves = array parameters only when the first instance of the "
         "(parametrised) class had arrays in the same attributes; matched only when the mismatching verdict sits in the class's OWN "
         "`_dynamic` table (a table shared between classes is reported as a violation)",
-        "provisional clause identity-to-mutates-receiver (PROVISIONAL_KNOWN): Identity.to(device) stores into the receiver",
+        "identity-to-mutates-receiver (Identity.to stored the device into the receiver) was repaired in /repo aef9931; `to_dev` is kept as a regression operation",
         "a private helper = a top-level function that is not decorated @export, not in __all__, never imported by name, and referenced "
         "only as the callee of direct calls in its own module (Python has no privacy: a user can still import it from its module)",
         "write-only attribute (`info`) / constructor-owned containers (`kwargs`, `info`): the mutation of such private state of an "
